@@ -88,6 +88,19 @@ func c11Scenarios(thorough bool) ([]*Scenario, map[string]c11Param) {
 			add(c11Param{code: c, burst: 1, which: 2})
 		}
 	}
+	// a refusal of a subtree delete, followed by a new mastership term: "the device is left as it was" must also hold
+	// after the re-synchronisation that the reconnection causes
+	scs = append(scs, &Scenario{Name: "S6d leaves applied on T1; a delete of their container that the device refuses (InvalidArgument), then a Set; connection lost and re-established anywhere", Cfg: WorldConfig{Targets: []string{"T1"}},
+		Init: func(w *World) {
+			connectAll("T1")(w)
+			w.devices["T1"].refuse = map[string]codes.Code{"delete /cont/sub": codes.InvalidArgument}
+		},
+		Prefix: []func(w *World) *Call{func(w *World) *Call {
+			return w.GoSet(bgCtx(), setReq("T1.leafA=1+sub/leafC=c", upd("T1", "/cont/leafA", "1"), upd("T1", "/cont/sub/leafC", "c")).Set)
+		}},
+		Requests: []SetReqOrCall{setReq("del /cont/sub", del("T1", "/cont/sub")), setReq("T1.leafA2=2", upd("T1", "/cont/leafA2", "2"))},
+		Faults:   []FaultSpec{faultConnDown("T1"), faultConnUp("T1")}, FaultBudget: 2})
+	params[scs[len(scs)-1].Name] = c11Param{code: codes.InvalidArgument, burst: 1, which: 2}
 	return scs, params
 }
 
@@ -127,6 +140,28 @@ func checkC11(rc *RunCtx) *Report {
 	terminal := func(sc *Scenario, w *World) (string, string) {
 		p := params[sc.Name]
 		v := w.View()
+		if strings.HasPrefix(sc.Name, "S6d") {
+			// transactions: 1 = prefix (applied), 2 = the refused delete, 3 = the later Set
+			if len(v.Txs) < 3 {
+				return "", ""
+			}
+			if v.Txs[1].Status.State != configapi.TransactionStatus_FAILED {
+				return "refused-change-not-failed/InvalidArgument/subtree-delete", fmt.Sprintf("the device refused the delete of /cont/sub but transaction 2 ends %s", v.Txs[1].Status.State)
+			}
+			if w.conns.LiveConn(topoID("T1")) == "" {
+				return "", ""
+			}
+			if v.Txs[2].Status.State != configapi.TransactionStatus_APPLIED {
+				return "other-change-not-applied/InvalidArgument/subtree-delete", fmt.Sprintf("nothing can act any more, T1 connected, transaction 3 is %s (%s)", v.Txs[2].Status.State, txPhasesText(v.Txs[2].Status.Phases))
+			}
+			want := `/cont/leafA2=string:"2";/cont/leafA=string:"1";/cont/sub/leafC=string:"c"`
+			wl := strings.Split(want, ";")
+			sort.Strings(wl)
+			if dev := c11DeviceText(w); dev != strings.Join(wl, ";") {
+				return "device-content/InvalidArgument/subtree-delete", fmt.Sprintf("the device refused the delete of /cont/sub and must be left as it was; at the end (T1 connected) it holds %q, expected %q", dev, strings.Join(wl, ";"))
+			}
+			return "", ""
+		}
 		if len(v.Txs) < 2 {
 			return "", ""
 		}
